@@ -373,7 +373,7 @@ def c_res(r):
     return None if cs is None else '(Ret %s)' % cs
 
 
-def c_case(case, obs):
+def c_parts(case, obs):
     new_spec = case['old'] if case.get('same_span_object') else case['new']
     tbl, ins = lc.c_tables(obs.get('pd', []))
     vars_ = c_view(obs['old_vars'], True)
@@ -414,26 +414,60 @@ def c_case(case, obs):
             c_names(p.get('backfill_', [])), c_names(p.get('bfill_', [])), c_names(p.get('pad_', [])),
             c_names(p.get('ffill_', [])), c_names(p.get('nearest_', [])), lib.clist(srt), lib.clist(act))
     strictarg = 'None' if case.get('strict') is None else '(Some %s)' % lib.cbool(case['strict'])
-    return '(mkRCase %s %s %s %s %s %s %s %s %s %s %s)' % (
-        lc.c_span(case['old']), tbl, ins, vars_, lib.cbool(case.get('obj_strict', False)), kind,
-        lc.c_span(new_spec), fv, strictarg, lib.clist('(%s, %s)' % kv for kv in fills), exp)
+    return [lc.c_span(case['old']), tbl, ins, vars_, lib.cbool(case.get('obj_strict', False)), kind,
+            lc.c_span(new_spec), fv, strictarg, lib.clist('(%s, %s)' % kv for kv in fills), exp]
+
+
+SHARED = {0: 'span', 1: 'list (label * loc)', 2: 'list (label * bool)', 3: 'list (string * series cell)', 6: 'span'}   # components bound once per group
+GROUP = 300
+
+
+def c_case(case, obs):
+    parts = c_parts(case, obs)
+    return None if parts is None else '(mkRCase %s)' % ' '.join(parts)
 
 
 def correspond(cases, obs, tag, tier):
+    """Consecutive cases are grouped; the old span, its tables, the old variables and the new span are `let`-bound once per group
+    (Coq elaborates each distinct term once).  The fast pass reports the groups with a disagreement; their cases are then
+    re-run one by one so that the indices returned are exact."""
     lc.reset_strings()
-    items, idx, bad = [], [], []
+    parts, idx, bad = [], [], []
     for i, (c, o) in enumerate(zip(cases, obs)):
         if o.get('timeout') or lc.unrepresentable(o.get('pd', [])):
             bad.append(i)
             continue
-        t = c_case(c, o)
+        t = c_parts(c, o)
         if t is None:
             bad.append(i)
             continue
-        items.append(t)
+        parts.append(t)
         idx.append(i)
-    b, errors = lib.run_coq_cases(tag, PREAMBLE + lc.string_table(), items, 'rbad_indices 0%nat cs', shard=300)
-    return sorted(bad + [idx[k] for k in b]), errors
+    items, members = [], []
+    for k in range(0, len(parts), GROUP):
+        chunk = parts[k:k + GROUP]
+        names, lets, terms = {}, [], []
+        for t in chunk:
+            t = list(t)
+            for pos, ty in SHARED.items():
+                key = (ty, t[pos])
+                if key not in names:
+                    names[key] = 'v%d' % len(names)
+                    lets.append('let %s : %s := %s in' % (names[key], ty, t[pos]))
+                t[pos] = names[key]
+            terms.append('(mkRCase %s)' % ' '.join(t))
+        items.append('(%s\n [%s])' % ('\n '.join(lets), ';\n  '.join(terms)))
+        members.append(idx[k:k + GROUP])
+    pre = PREAMBLE + lc.string_table()
+    b, errors = lib.run_coq_cases(tag, pre, items, 'rgbad_indices 0%nat cs', shard=3)
+    if errors:
+        return sorted(bad), errors
+    suspects = [i for g in b for i in members[g]]
+    if suspects:
+        terms = [c_case(cases[i], obs[i]) for i in suspects]
+        b2, errors = lib.run_coq_cases(tag + 'x', pre, terms, 'rbad_indices 0%nat cs', shard=300)
+        bad += [suspects[j] for j in b2]
+    return sorted(bad), errors
 
 
 def explain(case, obs):
